@@ -213,3 +213,59 @@ def r05_3(prog, out):
                     out.violation(key, bi.loc(bb), "reference time of the new deadline is not the time of the call (%r; %s)" % (o, sorted(c.split('::')[-1] for c in s.calls)[:4]))
     if n < 2:
         raise CheckBroken("expected 2 callers of the batch parser, found %d" % n)
+
+
+@rule("C05", "R05.5", "every ack id handed to the batch parser has its own seconds value (zip cannot truncate)", floor=2)
+@rule("C03", "R05.5", "every ack id handed to the batch parser has its own seconds value (zip cannot truncate)", floor=2)
+def r05_5(prog, out):
+    A = prog.anchors
+    sl = Slicer(prog)
+    parser = [b.id for b in prog.facts.lib_bodies() if b.kind == "Fn" and b.local_ty(0).startswith(
+        "std::result::Result<std::vec::Vec<%s" % A.ty("DeadlineModification"))]
+    if not parser:
+        raise CheckBroken("batch parser not found")
+    pb = prog.facts.body(parser[0])
+    # which parameters are the two lists
+    lists = [i for i in range(1, pb.arg_count + 1) if pb.local_ty(i).startswith("&[")]
+    if len(lists) != 2:
+        out.undecided("parser-signature", prog.loc(parser[0]), "batch parser does not take two slices")
+        return
+    zips = any(t.callee.path == "std::iter::Iterator::zip" for bb, t in prog.info(parser[0]).calls())
+    n = 0
+    for bid, b in prog.facts.bodies.items():
+        if b.crate != "lib":
+            continue
+        bi = prog.info(bid)
+        for bb, t in bi.calls(lambda c: prog.qual(b, c.target) in parser):
+            n += 1
+            key = "equal-lengths:%s" % prog.short(bid)
+            a_ids, a_secs = t.args[lists[0] - 1], t.args[lists[1] - 1]
+            s_ids, s_secs = sl.of(bid, a_ids), sl.of(bid, a_secs)
+            # (a) built from the id list element by element: ids.iter().map(|_| x).collect()
+            derived = any(c == "std::iter::Iterator::map" for c in s_secs.calls) and any(c.endswith("Iterator::collect") for c in s_secs.calls) \
+                and (s_ids.fields & s_secs.fields) and not any(c.split("::")[-1] in ("take", "skip", "step_by", "filter", "from_ref", "first", "last") for c in s_secs.calls)
+            # (b) a dominating length comparison between the two lists that rejects on mismatch
+            guarded = False
+            for blk in b.blocks:
+                if blk.cleanup or not bi.cfg.dominates(blk.idx, bb):
+                    continue
+                for st in blk.stmts:
+                    if st.k == "assign" and st.rv.k == "bin" and st.rv.j["op"] in ("Ne", "Eq"):
+                        fl = set()
+                        for op in st.rv.ops:
+                            o = bi.trace(op)
+                            if o.kind == "call" and bi.call_at(o.data).callee.path.endswith("::len"):
+                                fl |= sl.of(bid, bi.call_at(o.data).args[0]).fields
+                        if (s_ids.fields & fl) and (s_secs.fields & fl) and len(fl) >= 2:
+                            guarded = True
+            if derived:
+                out.holds(key, bi.loc(bb), "the seconds list is built with one element per ack id")
+            elif guarded:
+                out.holds(key, bi.loc(bb), "a length comparison of the two lists rejects a mismatch before parsing")
+            elif not zips:
+                out.undecided(key, bi.loc(bb), "the parser does not zip the lists")
+            else:
+                out.violation(key, bi.loc(bb), "the batch parser zips the ack ids with a seconds list whose length is not tied to the id list: zip silently "
+                              "truncates, so only a prefix of the ack ids is modified while the call reports success")
+    if n < 2:
+        raise CheckBroken("expected 2 callers of the batch parser, found %d" % n)
